@@ -41,7 +41,7 @@ def draw (K : Nat) (bst : Nat → Rat) (u : Rat) : Nat := descend K bst u (K + 1
 /-- the u-cells induced by an arbitrary threshold table below node `ptr`, restricted to `[lo, hi)`:
     going left keeps `u < bst ptr`, going right keeps `bst ptr ≤ u`; empty intervals are dropped -/
 def cellsFrom (K : Nat) (bst : Nat → Rat) : Nat → Nat → Rat → Rat → List (Nat × Rat × Rat)
-  | 0, _, _, _ => []
+  | 0, ptr, lo, hi => if lo < hi then [(ptr - K - 1, lo, hi)] else []
   | fuel + 1, ptr, lo, hi =>
     if ptr ≤ K then
       cellsFrom K bst fuel (2 * ptr) lo (min hi (bst ptr)) ++ cellsFrom K bst fuel (2 * ptr + 1) (max lo (bst ptr)) hi
